@@ -1,15 +1,20 @@
 """C07 -- geometry maps evaluate consistently on every route and constructions are exact.
 
-spec/GeoFunc.tla      exact reference: geometry object = knot vectors + rational control net (+ weights); values, Jacobians
-                      (x-last axis order, column b = d/d coordinate b) and packed Hessians on tensor grids; NURBS by the
-                      Leibniz rule applied to G w = N; the operations and constructors as operations on control nets;
-                      circular arcs with Pythagorean opening angles; polynomial user functions; compositions.
-spec/GeoFuncCases.tla one TLC state per case (recipe over constructors/operations); TLC checks the control-net model of the
-                      top-level operation against its declarative meaning and emits the exact sheet of the result.
-spec/GeoFuncOps.tla   state machine "no operation alters an existing object": state = live objects (control nets),
-                      actions = the operations; every transition is replayed on the real objects with byte fingerprints
-                      of all live objects before/after.
-This driver rebuilds every recipe with the real public API (M1) and replays every evaluation route."""
+spec/GeoFunc.tla       exact reference (EXTENDS BSplineRef): geometry object = knot vectors + rational control net (+ weights);
+                       values, Jacobians (x-last axis order, column b = d/d coordinate b) and packed Hessians on tensor grids;
+                       NURBS by the Leibniz rule applied to G w = N; the operations and constructors as operations on control
+                       nets (Build(recipe)); circular arcs with Pythagorean opening angles; polynomial user functions.
+spec/GeoFuncCases.tla  one TLC state per case (recipe over constructors/operations, families base/unary/binary/ctor); TLC checks
+                       the control-net model of the top-level operation against its declarative meaning (invariant CaseOK;
+                       circles: x^2+y^2 = r^2, end-point and knot angles, monotone angle -- exactly) and emits the sheet.
+spec/GeoFuncComp.tla   user-defined (polynomial) functions, compositions geo2 o geo1 (chain rule), physical gradients J^-T grad u.
+spec/GeoFuncOps.tla    state machine "no operation alters an existing object": state = live objects (control nets), actions =
+                       the operations, action property OperandsUnchanged; every transition is replayed on real objects with
+                       byte fingerprints (knots, coefficients, support override) of ALL live objects before/after.
+spec/GeoFuncNamed.tla  named shapes with irrational data: spec-generated cases + predicates evaluated numerically here.
+This driver rebuilds every recipe with the real public API (M1) and replays every evaluation route: geo(x,y,z), grid_eval,
+utils.grid_eval, grid_jacobian, grid_hessian, pointwise_eval, pointwise_jacobian, boundary(name | (axis, side)) recursively,
+boundary with restricted support (_BoundaryFunction), UserFunction, ComposedFunction, PhysicalGradientFunc."""
 import itertools
 import math
 from concurrent.futures import ThreadPoolExecutor
@@ -28,13 +33,14 @@ def tlc(ctx, module, cfg, **kw):
     import hashlib
     import os
     cache = os.environ.get('C07_TLC_CACHE')
+    kw.setdefault('env', {'JAVA_TOOL_OPTIONS': '-XX:ParallelGCThreads=3'})   # many JVMs run side by side
     if not cache:
         return ctx.tlc(module, cfg, **kw)
     h = hashlib.sha1()
     for f in sorted(SPEC.glob('GeoFunc*.tla')) + [SPEC / 'BSplineRef.tla', SPEC / 'Rat.tla', SPEC / 'Emit.tla']:
         h.update(f.read_bytes())
     h.update(open(cfg, 'rb').read())
-    h.update(repr((module, sorted((k, v) for k, v in kw.items() if k not in ('timeout', 'must_pass', 'workers')))).encode())
+    h.update(repr((module, sorted((k, v) for k, v in kw.items() if k not in ('timeout', 'must_pass', 'workers', 'env')))).encode())
     path = os.path.join(cache, h.hexdigest() + '.out')
     if os.path.exists(path):
         res = TLCResult()
@@ -1077,8 +1083,8 @@ def run_named(ctx, agg, rec):
 def ops_cfgs(ctx):
     """(universe, MaxSteps, MaxLive, simulate)"""
     if ctx.thorough:
-        return [(1, 2, 6, None), (2, 2, 6, None), (3, 2, 6, None), (1, 4, 8, 60), (2, 4, 8, 60), (3, 4, 8, 60)]
-    return [(1, 2, 6, None), (2, 1, 6, None), (3, 1, 6, None), (2, 3, 7, 3), (3, 3, 7, 3)]
+        return [(1, 2, 6, None), (2, 2, 6, None), (3, 2, 6, None), (1, 4, 8, 12), (2, 4, 8, 12), (3, 4, 8, 12)]
+    return [(4, 2, 6, None), (1, 1, 6, None), (2, 1, 6, None), (3, 1, 6, None), (2, 3, 7, 2), (3, 3, 7, 2)]
 
 
 def apply_step(st, live):
@@ -1115,7 +1121,8 @@ def run_ops(ctx, agg, res, name):
         try:
             live = [build_obj(o, k) for k, o in enumerate(objs)]
         except Exception as ex:
-            raise MachineryError('cannot build the initial objects: %r' % ex)
+            bt.viol('construct initial objects', 'exception %s' % type(ex).__name__, error=repr(ex)[:300])
+            continue
         ok = True
         for st in hist:
             before = [fingerprint(x) for x in live]
@@ -1170,15 +1177,29 @@ def run_ops(ctx, agg, res, name):
 def fam_runs(ctx):
     """(family, nparts, workers) per tier"""
     if ctx.thorough:
-        return [('base', 8, 2), ('unary', 8, 2), ('binary', 8, 2), ('ctor', 2, 2)]
+        return [('base', 6, 2), ('unary', 6, 2), ('binary', 6, 2), ('ctor', 2, 2)]
     return [('base', 2, 3), ('unary', 2, 2), ('binary', 2, 3), ('ctor', 1, 2)]
 
 
 def run(ctx):
-    ctx.rule = ('TLC enumerates recipes over explicit rational control nets (sdim 1-3, scalar/vector/matrix, B-spline/NURBS, '
-                'mixed degrees, repeated knots, rational weights), every constructor and operation; one case = one recipe '
-                'rebuilt with the real API and driven through every evaluation route on a TLC-chosen rational grid')
-    ctx.assumptions = ['expected values are exact rationals of spec/GeoFunc.tla; float comparison |x-q| <= 1e-11 max(1,|q|,4 max|sheet|)']
+    ctx.rule = ('TLC enumerates (exhaustively over the pools of spec/GeoFuncCases.tla: knot-vector combinations with mixed degrees '
+                '0-3, repeated and rational knots, sdim 1-3 x output shape scalar/(1)/(2)/(3)/(2,2)/(2,3) x B-spline/NURBS with '
+                'rational weights) recipes = explicit control nets, every unary/binary operation with scalar/vector/matrix '
+                'arguments, every constructor (line_segment, unit_square/cube, identity, circular arcs with Pythagorean angles), '
+                'polynomial user functions, compositions and physical gradients; one case = one recipe rebuilt with the real API '
+                'and driven through every evaluation route on a TLC-chosen rational grid (every case is non-trivial: >= 2 grid '
+                'points per axis, distinct coordinates per axis); plus one case per operation history of spec/GeoFuncOps.tla '
+                '(exhaustive to depth 1-2, simulated to depth 3-4; non-trivial = at least two operations or a binary operation) '
+                'and one case per named shape/radius/angle of spec/GeoFuncNamed.tla (numeric predicates)')
+    ctx.assumptions = ['expected values are exact rationals of spec/GeoFunc.tla (on BSplineRef); float comparison |x-q| <= 1e-11 '
+                       'max(1,|q|,4 max|sheet|)',
+                       'named shapes with irrational data (circle, semicircle, disk, quarter annulus, arcs/rotations by angles '
+                       'without rational sine/cosine) are only checked by numeric predicates (|G| = r to 1e-12, angle range, '
+                       'G\' = R(phi) G with the exact G)',
+                       '32-bit rationals: Hessians of 3-D NURBS results of operations, of 7-point arcs and of compositions are not '
+                       'computed by the spec; a part whose Hessians overflow is redone without them (reported under skipped)',
+                       'Hessians of matrix-valued functions are not defined by the library (assert) and not checked']
+    OBJ_FAILED.clear()
     agg = Agg(ctx)
     jobs = []
     for fam, nparts, workers in fam_runs(ctx):
@@ -1214,11 +1235,11 @@ def run(ctx):
     def run_comp_job(part):
         nparts = ncomp
         cfg = write_cfg(ctx.scratch / ('comp_%d.cfg' % part),
-                        dict(Thorough=ctx.thorough, NParts=nparts, Part=part, Seed=int(ctx.seed) % 1000), invariants=['CaseOK'])
+                        dict(Thorough=ctx.thorough, NParts=nparts, Part=part, Seed=0), invariants=['CaseOK'])
         return tlc(ctx, 'GeoFuncComp', cfg, workers=2, timeout=7200)
 
     def run_named_job():
-        cfg = write_cfg(ctx.scratch / 'named.cfg', dict(Thorough=ctx.thorough, Seed=int(ctx.seed) % 1000), invariants=['CaseOK'])
+        cfg = write_cfg(ctx.scratch / 'named.cfg', dict(Thorough=ctx.thorough, Seed=0), invariants=['CaseOK'])
         return tlc(ctx, 'GeoFuncNamed', cfg, workers=2, timeout=7200)
 
     def neg_control(item):
@@ -1240,6 +1261,8 @@ def run(ctx):
             f.result()
     n = 0
     for fam, res in results:
+        if len(res.recs('CASE')) != res.distinct - 1:
+            raise MachineryError('GeoFuncCases %s: %d cases emitted for %d states' % (fam, len(res.recs('CASE')), res.distinct))
         for rec in sorted(res.recs('CASE'), key=lambda r: r['id']):
             run_case(ctx, agg, rec)
             n += 1
@@ -1260,4 +1283,5 @@ def run(ctx):
         run_named(ctx, agg, rec)
     ctx.notes['operation_histories_replayed'] = sum(run_ops(ctx, agg, res, name) for name, res in ops_results)
     agg.flush()
-    ctx.exhaustive = True
+    ctx.notes['families'] = 'base/unary/binary/ctor/compose: exhaustive over the pools; operation histories: exhaustive to depth 1-2, simulated beyond'
+    ctx.exhaustive = False
